@@ -1,6 +1,7 @@
 package harness
 
 import (
+	"bytes"
 	"encoding/json"
 	"fmt"
 	"math/rand"
@@ -37,10 +38,13 @@ type c02Vec struct {
 		Skew int64 `json:"skew"`
 	} `json:"cfg"`
 	In struct {
+		Entry  string     `json:"entry"`
+		ArtII  string     `json:"artII"`
 		RespII string     `json:"respII"`
 		Assns  []c02AssnC `json:"assns"`
 	} `json:"in"`
 	Abs struct {
+		ArtII  int64     `json:"artII"`
 		RespII int64     `json:"respII"`
 		Assns  []c02Assn `json:"assns"`
 	} `json:"abs"`
@@ -98,13 +102,38 @@ func c02Build(v *c02Vec, now time.Time, rng *rand.Rand) []byte {
 			Attrs: []AttrSpec{{Name: "uid", Values: []string{"u"}}},
 		}))
 	}
-	resp := buildResponse(RespSpec{
+	rs := RespSpec{
 		ID: "id-resp-1", InResponseTo: sp("id-req-1"), IssueInstant: inst(v.In.RespII, v.Abs.RespII),
 		Destination: sp(spACS), Issuer: sp(idpEntityID), Status: sp(statusOK),
 		Assertions: assns, SignWith: key("idp1"),
-	})
+	}
+	if v.In.Entry == "artS" {
+		rs.SignWith = nil // covered by the ArtifactResponse signature
+	}
+	resp := buildResponse(rs)
+	if v.In.Entry == "artS" || v.In.Entry == "artU" {
+		el := etree.NewElement("samlp:ArtifactResponse")
+		el.CreateAttr("xmlns:saml", nsAssertion)
+		el.CreateAttr("xmlns:samlp", nsProtocol)
+		el.CreateAttr("ID", "id-artresp-1")
+		el.CreateAttr("InResponseTo", c02ArtReqID)
+		el.CreateAttr("Version", "2.0")
+		setAttr(el, "IssueInstant", inst(v.In.ArtII, v.Abs.ArtII))
+		el.CreateElement("saml:Issuer").SetText(idpEntityID)
+		el.CreateElement("samlp:Status").CreateElement("samlp:StatusCode").CreateAttr("Value", statusOK)
+		el.AddChild(resp)
+		if v.In.Entry == "artS" {
+			el = signEnveloped(el, key("idp1"), SigOpts{})
+		}
+		env := etree.NewElement("soap:Envelope")
+		env.CreateAttr("xmlns:soap", "http://schemas.xmlsoap.org/soap/envelope/")
+		env.CreateElement("soap:Body").AddChild(el)
+		return docBytes(env)
+	}
 	return docBytes(resp)
 }
+
+const c02ArtReqID = "id-artifact-resolve-1"
 
 // c02Within is the statement's window condition for one assertion (non-strict).
 func c02Within(v *c02Vec, a c02Assn) (bool, string) {
@@ -136,7 +165,13 @@ type c02Obs struct {
 func c02Run(spv *saml.ServiceProvider, doc []byte) c02Obs {
 	var o c02Obs
 	p, msg := safely(func() {
-		a, err := spv.ParseXMLResponse(doc, []string{"id-req-1"}, mustURL(spACS))
+		var a *saml.Assertion
+		var err error
+		if bytes.HasPrefix(doc, []byte("<soap:Envelope")) {
+			a, err = spv.ParseXMLArtifactResponse(doc, []string{"id-req-1"}, c02ArtReqID, mustURL("https://idp.example.com/saml/artifact"))
+		} else {
+			a, err = spv.ParseXMLResponse(doc, []string{"id-req-1"}, mustURL(spACS))
+		}
 		if err != nil {
 			if ire, ok := err.(*saml.InvalidResponseError); ok && ire.PrivateErr != nil {
 				o.Err = ire.PrivateErr.Error()
